@@ -16,6 +16,9 @@ from .values import (
 
 
 class Type:
+    def __repr__(self):
+        return getattr(self, "cls", None) or type(self).__name__
+
     def fresh(self, name):
         """-> (value, list of well-formedness assumptions)"""
         raise NotImplementedError
